@@ -111,7 +111,8 @@ def generate(rng, tier, index):
             msgs.append({"type": "req", "method": hx(_w(rng, 1, 8, _TOKEN.replace("_", "")).encode()), "path": hx(path.encode()),
                          "params": params, "headers": _headers(rng), "body": hx(_body(rng)), "plus": rng.random() < 0.5,
                          # reserved characters the sender leaves unencoded inside the query (legal per RFC 3986)
-                         "raw_safe": hx(bytes(sorted(set(rng.sample(list(b"?/:@!$'()*,;="), rng.choice([0, 0, 1, 3, 13]))))))})
+                         "raw_safe": hx(bytes(sorted(set(rng.sample(list(b"?/:@!$'()*,;="), rng.choice([0, 0, 1, 3, 13])))))),
+                         "lower_hex": rng.choice([0, 0, 1, 2])})
         elif r < 0.8:
             msgs.append({"type": "resp", "status": rng.choice([100, 200, 204, 301, 404, 500, 599, rng.randint(100, 599)]),
                          "reason": hx(rng.choice([b"OK", b"Not-Found", _w(rng, 1, 10).encode(), bytes([rng.randint(0x21, 0x7E)])])),
@@ -156,7 +157,8 @@ def execute(plan: dict) -> Result:
             method, path = unhx(m["method"]), unhx(m["path"])
             params = [(unhx(k), unhx(v)) for k, v in m["params"]]
             raw_safe = unhx(m.get("raw_safe", ""))
-            wire = rc.serialize_request(method, path, params, headers, body, plus_for_space=m["plus"], raw_safe=raw_safe)
+            wire = rc.serialize_request(method, path, params, headers, body, plus_for_space=m["plus"], raw_safe=raw_safe,
+                                        lower_hex=m.get("lower_hex", 0))
             if raw_safe and any(c in k + v for k, v in params for c in raw_safe):
                 res.probes["param_reserved_char_unencoded"] += 1
             if params:
